@@ -9,6 +9,7 @@ from sim.install import CTX
 from sim.core import substream
 
 PROP = 'C03'
+TECHNIQUE = 'deterministic simulation with fault injection: enumeration of all crash points and all single permanent call failures of a sampled victim command (SimStore commits and Local syscalls), post-fault usability oracle'
 LEVEL = 'fault_enumeration'
 RULE = ('one case = a fault-free prefix history (1..3 commands, 1..2 users) and one victim command (snapshot / delete / clean) under a '
         'seeded schedule. The victim is first run to completion to count its backend mutation commits M and backend calls C; it is then '
